@@ -916,6 +916,26 @@ type loopSpec struct {
 	extra  map[string]*Val // extra names visible in invariants
 }
 
+// checkExits: `loop N exits e` -- e holds whenever the loop is left (exhausted or by break).
+func (ex *Exec) checkExits(st *State, ls *loopSpec, extra map[string]*Val) {
+	if ex.contract == nil || ex.discovery > 0 {
+		return
+	}
+	n := 0
+	for _, cl := range ex.contract.Clauses {
+		if cl.Loop != ls.ord || cl.Kind != "exits" {
+			continue
+		}
+		n++
+		name := cl.Name
+		if name == "" {
+			name = fmt.Sprintf("#%d", n)
+		}
+		g := ex.evalClause(st, cl, ex.entry, ls.scopeP, extra, nil)
+		ex.obligCl(st, "loop-exit", fmt.Sprintf("loop%d/exit:%s", ls.ord, name), ls.pos, g, cl)
+	}
+}
+
 func (ex *Exec) checkInvs(st *State, ls *loopSpec, kind string, extra map[string]*Val) {
 	for i, cl := range ls.invs {
 		name := cl.Name
@@ -1211,6 +1231,7 @@ func (ex *Exec) execRange(st *State, s *ast.RangeStmt, label string) flow {
 	exits, out := iter(head)
 	ex.inLoop--
 	for _, e := range exits {
+		ex.checkExits(e, ls, extraAt(e))
 		delete(e.vars, hid)
 	}
 	out.normal = ex.mergeStates(exits)
